@@ -578,6 +578,7 @@ impl AdjacencyListWeighted<isize> {
     @after `let order = self.order();`
         proof {
             assert(order * (order - 1) == order * order - order) by (nonlinear_arith) requires order >= 1;
+            assert((order - 1) * order == order * (order - 1)) by (nonlinear_arith) requires order >= 1;  // robust against commuted operands
             lemma_wm_pair_count(*self);
             lemma_wm_rows(*self);
             let rem = (core::ops::Range { start: 0usize, end: order }).remaining();
@@ -606,6 +607,7 @@ impl AdjacencyListWeighted<isize> {
     @after `let order = self.order();`
         proof {
             assert(order * (order - 1) == order * order - order) by (nonlinear_arith) requires order >= 1;
+            assert((order - 1) * order == order * (order - 1)) by (nonlinear_arith) requires order >= 1;  // robust against commuted operands
             lemma_wm_pair_count(*self);
             lemma_wm_rows(*self);
             let rem = (core::ops::Range { start: 0usize, end: order }).remaining();
@@ -635,6 +637,7 @@ impl AdjacencyListWeighted<isize> {
     @after `let order = self.order();`
         proof {
             assert(order * (order - 1) == order * order - order) by (nonlinear_arith) requires order >= 1;
+            assert((order - 1) * order == order * (order - 1)) by (nonlinear_arith) requires order >= 1;  // robust against commuted operands
             lemma_wm_pair_count(*self);
             lemma_wm_rows(*self);
             let rem = (core::ops::Range { start: 0usize, end: order }).remaining();
